@@ -73,7 +73,7 @@ MkInput(ptr, name, defs, uses, pert, en) ==
       ZP == TypeDef("ZP", "pub", <<Field("v", "pub", <<>>, TCPtr(TNm("u8")), None, FALSE)>>)
       ZDia == TypeDef("ZDia", "pub", <<Field("l", "pub", <<>>, TNm("ZP"), None, TRUE), Field("r", "pub", <<>>, TNm("ZP"), None, TRUE)>>)
       mm == [Module(<<"m">>, [i \in DOMAIN uses |-> UsePath(name, uses[i])], own("m") \o <<Own, R2, OwnP, Dia>> \o (IF en THEN <<En>> ELSE <<>>))
-               EXCEPT !.impls = <<Impl("R", <<g>>)>>,
+               EXCEPT !.impls = <<Impl("R", <<g>>), Impl("OwnP", <<Func("h", "pub", <<>>, <<ArgC>>, TNm("u32"), 12288, None, "")>>)>>,
                       (* an extern value mentions the name too: its accessor type reveals the binding *)
                       !.evals = <<ExtVal("gx", "pub", TCPtr(TNm(name)), 8192)>>]
       ma == Module(<<"a">>, <<>>, own("a") \o (IF pert = "othername" THEN <<DefOf("Other", "b")>> ELSE <<>>)
@@ -89,8 +89,9 @@ MkInput(ptr, name, defs, uses, pert, en) ==
       mz == Module(<<"zz">>, <<<<"a">>>>, <<DefOf(name, "b"), Unrelated, ZP, ZDia>>)
       mraw == Module(<<"r#m">>, <<>>, <<Unrelated>>)
       mdot == Module(<<"a.x", "n">>, <<<<"b">>>>, <<Unrelated>>)
-      (* a module nested in m that is named like m's type R: R (its fields, its impl block) still belongs to m *)
-      mnest == Module(<<"m", "R">>, <<>>, <<Unrelated>>)
+      (* a module nested in m that is named like m's type OwnP: OwnP (its fields, its impl block) still belongs to m *)
+      (* (OwnP has only built-in fields and an impl block: its description stays resolvable whatever scope it is read in)  *)
+      mnest == Module(<<"m", "OwnP">>, <<>>, <<Unrelated>>)
       base == <<mm, ma, mb, mn>>
   IN [ptr |-> ptr, gen |-> [ptr |-> ptr, name |-> name, defs |-> defs, uses |-> uses, en |-> en],
       mods |-> CASE pert = "addmod" -> base \o <<mz>>
